@@ -16,6 +16,7 @@ import ZlModel.TldGen
 import ZlModel.Config
 import ZlModel.Cli
 import ZlModel.Walkers
+import ZlModel.Names
 open Zl Zl.Proto
 
 namespace Zl.Driver
@@ -383,6 +384,20 @@ def opWalk (kind : String) (fields : List String) : String :=
     | .val true => "1" | .val false => "0" | .panic => "panic"
   | _, _ => "bad-op"
 
+/-! ### modelled name lints (C17 / C20) -/
+
+def hexNames (s : String) : List (List Nat) := if s == "." then [] else (s.splitOn ",").map (fun h => (unhexBytes h).getD [])
+
+def opNames (fields : List String) : String :=
+  match fields with
+  | [mask, cn, ip, dns, uris, idns, iuris] =>
+    let v : Names.View := { cn := (unhexBytes cn).getD [], cnIsIP := ip == "1", dns := hexNames dns, uris := hexNames uris,
+                            ianDns := hexNames idns, ianUris := hexNames iuris }
+    let vs := Names.verdicts v
+    let ms := mask.toList
+    ",".intercalate ((vs.zip ms).map (fun p => if p.2 == '1' then toString p.1 else "*"))
+  | _ => "bad-op"
+
 def step (line : String) : String :=
   match line.splitOn "\t" with
   | "fw" :: rest => opFw rest
@@ -408,6 +423,7 @@ def step (line : String) : String :=
   | "dec" :: rest => opDec rest
   | "src" :: rest => opSrc rest
   | "srclist" :: rest => opSrcList rest
+  | "names" :: rest => opNames rest
   | "wcc" :: rest => opWalk "wcc" rest
   | "wbmp" :: rest => opWalk "wbmp" rest
   | "wna" :: rest => opWalk "wna" rest
